@@ -6,6 +6,7 @@ import (
 	"os"
 	"path/filepath"
 	"reflect"
+	"sort"
 	"strings"
 	"time"
 
@@ -215,7 +216,14 @@ func execFatAttrs(t *core.Trace) *core.Result {
 			return fail(i, "reopen", trig, "re-opening failed: "+err.Error())
 		}
 		res.Probe("reopen")
-		for p, a := range model {
+		// fixed order: which of several wrong entries is reported first must not depend on map iteration
+		var mpaths []string
+		for p := range model {
+			mpaths = append(mpaths, p)
+		}
+		sort.Strings(mpaths)
+		for _, p := range mpaths {
+			a := model[p]
 			fi, err := rfs.Stat(vpath(p))
 			if err != nil {
 				return fail(i, "stat", trig, fmt.Sprintf("Stat(%q): %v", p, err))
